@@ -137,7 +137,12 @@ def run(tier, seed):
     if tier != "quick":
         g2 = tlc.run("MetadataGen", GEN % (1, 2, "TRUE"), workers=4, simulate=4000, depth=8, seed=seed + 1, timeout=600)
         hs += g2.printed
-    hists = uniq(h0 + h1 + hs)
+    # a key written twice in the block (every update of every key, and no update)
+    GD = GEN.replace("INIT Init", "INIT InitDup").replace("INVARIANTS NoCharLost UpdateReadsBack OthersUnchanged Emit", "INVARIANTS UpdateReadsBack Emit")
+    hd = tlc.run("MetadataGen", GD % (3, 1, "FALSE"), workers=4, timeout=600).printed + tlc.run("MetadataGen", GD % (3, 0, "FALSE"), workers=2, timeout=600).printed
+    if len(hd) < 12: raise FrameworkError("MetadataGen(InitDup): %d histories" % len(hd))
+    chk.cov["duplicate_key_histories"] = len(hd)
+    hists = uniq(h0 + h1 + hs + hd)
     exe = build.build_harness("asan"); cli = build.build_cli()
     fams = ["s", "d", "e", "p", "c", "q"]
     segs = []; owners = []
